@@ -33,6 +33,9 @@ class Core:
         self.inline_depth = 0
         self.notes: List[str] = []
         self.lemma_instances: set = set()
+        self.global_facts: List[Any] = []
+        self._global_heap: Dict[int, Any] = {}
+        self._const_cache: Dict[Any, Any] = {}
 
     # ------------------------------------------------------------------ sorts
     def parse_sort(self, text) -> Sort:
@@ -140,6 +143,8 @@ class Core:
     # ------------------------------------------------------------------ conversions value <-> term
     def deref(self, v, st: State):
         if isinstance(v, VRef):
+            if v.ref < 0:
+                return self._global_heap[v.ref]
             return st.heap[v.ref]
         return v
 
@@ -321,7 +326,7 @@ class Core:
             self.obligs.append(Oblig(name or f"{self.cur_fn}::{kind}", kind, self.cur_fn, self.cur_line, [], goal, text, self.path_counter, list(self.c.serves)))
             return
         self.obligs.append(
-            Oblig(name or f"{self.cur_fn}::{kind}", kind, self.cur_fn, self.cur_line, list(st.pc), goal, text, self.path_counter, list(self.c.serves), expect_sat)
+            Oblig(name or f"{self.cur_fn}::{kind}", kind, self.cur_fn, self.cur_line, list(self.global_facts) + list(st.pc), goal, text, self.path_counter, list(self.c.serves), expect_sat)
         )
         if not expect_sat:
             st.assume(goal)
